@@ -71,10 +71,10 @@ PrefixExtAt(j) ==
       ELSE KItem("hdk.derive", "known_prefix_extended", [seed |-> BytesToHex(Prng(K("pxseed", <<j % 5>>), 32)), path |-> text])
 
 \* every character U+0001..U+00FF before and after the digit of a path component
-NPathEveryChar == 2 * 255
+NPathEveryChar == 2 * NTryChars
 PathEveryCharAt(j) ==
-  LET cp == 1 + ((j - 1) % 255)
-  IN  KItem("path.parse", "every_character", [text |-> IF j <= 255 THEN "m/" \o CpsToStr(<<cp>>) \o "1" ELSE "m/1" \o CpsToStr(<<cp>>)])
+  LET cp == TryChar(1 + ((j - 1) % NTryChars))
+  IN  KItem("path.parse", "every_character", [text |-> IF j <= NTryChars THEN "m/" \o CpsToStr(<<cp>>) \o "1" ELSE "m/1" \o CpsToStr(<<cp>>)])
 
 \* HISTORIES: several derivations on one thread of one process whose seeds / paths are related - the same seed again,
 \* seeds that differ in the first / last / a middle byte or word, a seed that is a prefix of the other, the same bytes
@@ -162,6 +162,16 @@ NKeyEnc == NEncodings * Len(EncScalars)
 KeyEncAt(j) ==
   LET k == EncScalars[1 + ((j - 1) \div NEncodings)]
   IN  KItem("key.new", "encoded_secret", [secret |-> BytesToHex(Encodings(k)[1 + ((j - 1) % NEncodings)])])
+\* HISTORIES of related keys on one thread: k, n - k (same x, opposite y), lambda k and lambda^2 k (same y: the
+\* secp256k1 endomorphism), k + 1, 2 k, k again: public key and address are functions of the secret alone
+Lambda == HexToBytes("5363ad4cc05c30e0a5261c028812645a122e22ea20816678df02967c1b23bd72")
+RelKeys(k) == <<k, BnFixed(BnSub(CurveN, k), 32), BnMulMod(Lambda, k, CurveN), BnMulMod(Lambda, BnMulMod(Lambda, k, CurveN), CurveN), k,
+                BnMulMod(PadLeft(<<2>>, 32), k, CurveN), BnMulMod(Lambda, k, CurveN), BnFixed(BnSub(CurveN, BnMulMod(Lambda, k, CurveN)), 32), k>>
+NRelKeys == IF Thorough THEN 60 ELSE 12
+RelKeysAt(j) ==
+  LET k  == IF j = 1 THEN PadLeft(<<1>>, 32) ELSE IF j = 2 THEN NMinus(1) ELSE LET c == Prng(K("rk", <<j>>), 32) IN IF InScalarRange(c) THEN c ELSE PadLeft(<<9>>, 32)
+      ks == RelKeys(k)
+  IN  KItem("seq", "related_keys_history", [steps |-> [i \in 1..Len(ks) |-> [op |-> "key.new", in |-> [secret |-> BytesToHex(ks[i])]]]])
 NKeyRand == IF Thorough THEN 11000 ELSE 800
 KeyAt(j) ==
   IF j <= Len(Scalars) THEN KItem("key.new", "scalars", [secret |-> BytesToHex(Scalars[j])])
@@ -266,12 +276,12 @@ BulkAt(j) ==
          seed |-> BytesToHex(K("bulk", <<j>>)), from |-> 32768 * j, count |-> 32768, chunk |-> 4096])
 
 \* every character U+0001..U+00FF in the place of the first digit of r and of the last digit of v
-NSigEveryChar == 2 * 255
+NSigEveryChar == 2 * NTryChars
 SigEveryCharAt(j) ==
-  LET cp   == 1 + ((j - 1) % 255)
+  LET cp   == TryChar(1 + ((j - 1) % NTryChars))
       sig  == Sign(SignKeys[1 + (j % 4)], Prng(K("pe", <<j % 3>>), 32))
       full == PrintSig([r |-> sig.r, s |-> sig.s, par |-> sig.par])
-      pos  == IF j <= 255 THEN 3 ELSE 132
+      pos  == IF j <= NTryChars THEN 3 ELSE 132
   IN  KItem("sig.parse", "every_character",
             [text |-> Utf8ToStr(SubSeq(full, 1, pos - 1)) \o CpsToStr(<<cp>>) \o Utf8ToStr(SubSeq(full, pos + 1, Len(full)))])
 =============================================================================
